@@ -28,6 +28,29 @@
 //! Known defects get narrow, input-derived signatures: a Zoned pair in which a
 //! or b lies on the *later* side of a fold (F9; with b < a and b on the later
 //! side the `panic!("this should be an error")`, F8).
+//!
+//! Extensions (coverage audit):
+//! * every addition jiff performs for the oracle (`a + s`, the overshoot
+//!   probes) is repeated by the reference model (`c07/model.rs`: refmodel::cal
+//!   for dates and datetimes, refmodel::tz with the compatible strategy for
+//!   zoned values); a disagreement is `<T>::checked_add(..)/differs-from-model`,
+//!   so a defect shared by `until` and `checked_add` cannot cancel out;
+//! * for `Date` / `DateTime` with largest = year or month the span is compared
+//!   with its independent definition (`model::expected_calendar`): greedy with
+//!   month-end clamping, or Temporal's field-wise "surpasses" rule (they differ
+//!   only for clamped month ends; either is accepted, which one is counted);
+//!   the month-overflow error is expected exactly when that count exceeds the
+//!   documented limit;
+//! * Zoned: synthetic zones also in the quick tier; pairs across consecutive
+//!   transitions and about 1 / 4 years apart; for transitions moving the wall
+//!   clock by 20 h or more a neighbourhood of +-4 civil days with times of day
+//!   aligned across the jump; section `zoned_extreme`: hand-built TZif data
+//!   with +-25:59:59 offsets (single 52 h gaps/folds, two and three such
+//!   transitions hours apart, a saw) and POSIX zones with ~50 h jumps - the
+//!   day-correction search of `Zoned::until` (bounded by 4) must never give up;
+//! * sections `errors`, `forms`, `zoned_cross_zone` (`c07/forms.rs`): the
+//!   documented unit refusals, every argument form of every `*Difference`
+//!   type, and differences between values of different time zones.
 
 use jiff::civil::{Date, DateTime, Time};
 use jiff::{Span, Timestamp, Unit, Zoned};
@@ -40,7 +63,14 @@ use vf::conv::{self, DAY_NS, NS};
 use vf::zones::{self, Pair, ZoneSrc};
 use vf::{guard, panic_sig, Report};
 
-const H: i128 = 3_600 * NS;
+#[path = "c07/model.rs"]
+mod model;
+#[path = "c07/hand.rs"]
+mod hand;
+#[path = "c07/forms.rs"]
+mod forms;
+
+use model::{decompose, MAdd, Sp, H, MONTHS_LIMIT, UNIT_NS};
 const UNITS: [Unit; 10] = [
     Unit::Year,
     Unit::Month,
@@ -54,10 +84,6 @@ const UNITS: [Unit; 10] = [
     Unit::Nanosecond,
 ];
 const UNAME: [&str; 10] = ["year", "month", "week", "day", "hour", "minute", "second", "millisecond", "microsecond", "nanosecond"];
-const MONTHS_LIMIT: i64 = 239_976;
-const UNIT_NS: [i128; 10] = [0, 0, 7 * DAY_NS, DAY_NS, H, 60 * NS, NS, 1_000_000, 1_000, 1];
-
-type Sp = [i64; 10];
 
 fn fields(s: &Span) -> Sp {
     [
@@ -102,22 +128,6 @@ fn fmt_sp(sp: &Sp) -> String {
     format!("span{{{}}}", parts.join(","))
 }
 
-/// exact decomposition of `n` nanoseconds into the units from `largest`
-/// (>= week index 2) down, truncating toward zero; weeks only if largest is week
-fn decompose(n: i128, largest: usize) -> Sp {
-    let mut rem = n;
-    let mut f = [0i64; 10];
-    for u in largest.max(2)..10 {
-        if u == 2 && largest != 2 {
-            continue;
-        }
-        let q = rem / UNIT_NS[u];
-        f[u] = q as i64;
-        rem -= q * UNIT_NS[u];
-    }
-    f
-}
-
 // ---------------------------------------------------------------------------
 // the five types behind one interface
 // ---------------------------------------------------------------------------
@@ -142,6 +152,18 @@ trait Val: Clone + Send + Sync {
     fn civil_pos(&self) -> i128 {
         self.pos()
     }
+    /// Date and DateTime: the year/month difference has an independent
+    /// expected value (`model::expected_calendar`)
+    const CIVIL_CAL: bool = false;
+    /// `self + f` by the reference model (refmodel::cal / refmodel::tz), no jiff
+    fn model_add(&self, f: &Sp, zc: Option<&ZCtx>) -> MAdd;
+}
+
+/// the reference side of a zone
+#[derive(Clone, Copy)]
+struct ZCtx<'a> {
+    model: &'a rtz::Zone,
+    taint: &'a [(i64, i64)],
 }
 
 impl Val for Date {
@@ -176,6 +198,16 @@ impl Val for Date {
     }
     fn ymd(&self) -> Option<(i64, i64, i64)> {
         Some(conv::date_ymd(*self))
+    }
+    const CIVIL_CAL: bool = true;
+    fn model_add(&self, f: &Sp, _: Option<&ZCtx>) -> MAdd {
+        if model::time_total(f) != 0 {
+            return MAdd::Unknown;
+        }
+        match model::date_add(conv::date_ymd(*self), f) {
+            Some(d) => MAdd::At(d as i128 * DAY_NS, None),
+            None => MAdd::Fail,
+        }
     }
 }
 
@@ -212,6 +244,13 @@ impl Val for DateTime {
     fn ymd(&self) -> Option<(i64, i64, i64)> {
         Some(conv::date_ymd(self.date()))
     }
+    const CIVIL_CAL: bool = true;
+    fn model_add(&self, f: &Sp, _: Option<&ZCtx>) -> MAdd {
+        match model::civil_add(self.pos(), f) {
+            Some(x) => MAdd::At(x, None),
+            None => MAdd::Fail,
+        }
+    }
 }
 
 impl Val for Time {
@@ -247,6 +286,17 @@ impl Val for Time {
     fn ymd(&self) -> Option<(i64, i64, i64)> {
         None
     }
+    fn model_add(&self, f: &Sp, _: Option<&ZCtx>) -> MAdd {
+        if model::has_calendar(f) {
+            return MAdd::Unknown;
+        }
+        let x = self.pos() + model::time_total(f);
+        if (0..DAY_NS).contains(&x) {
+            MAdd::At(x, None)
+        } else {
+            MAdd::Fail
+        }
+    }
 }
 
 impl Val for Timestamp {
@@ -281,6 +331,17 @@ impl Val for Timestamp {
     }
     fn ymd(&self) -> Option<(i64, i64, i64)> {
         None
+    }
+    fn model_add(&self, f: &Sp, _: Option<&ZCtx>) -> MAdd {
+        if model::has_calendar(f) {
+            return MAdd::Unknown;
+        }
+        let x = self.pos() + model::time_total(f);
+        if x >= conv::ts_min_ns() && x <= conv::ts_max_ns() {
+            MAdd::At(x, None)
+        } else {
+            MAdd::Fail
+        }
     }
 }
 
@@ -320,6 +381,12 @@ impl Val for Zoned {
     fn civil_pos(&self) -> i128 {
         conv::dt_civil_ns(self.datetime())
     }
+    fn model_add(&self, f: &Sp, zc: Option<&ZCtx>) -> MAdd {
+        match zc {
+            Some(zc) => model::z_add(zc.model, self.pos(), f, conv::ts_min_ns(), conv::ts_max_ns()),
+            None => MAdd::Unknown,
+        }
+    }
 }
 
 // ---------------------------------------------------------------------------
@@ -350,6 +417,23 @@ struct Tally {
     z_skip_offset: AtomicU64,
     z_skip_taint: AtomicU64,
     z_known_class_cases: AtomicU64,
+    // extensions
+    model_add_checked: AtomicU64,
+    model_add_unknown: AtomicU64,
+    model_add_skip_taint: AtomicU64,
+    model_add_range_only: AtomicU64,
+    expected_checked: AtomicU64,
+    expected_g_ne_t: AtomicU64,
+    chose_greedy: AtomicU64,
+    chose_temporal: AtomicU64,
+    z_wide_pairs: AtomicU64,
+    z_hand_zones: AtomicU64,
+    z_posix_zones: AtomicU64,
+    z_cross_pairs: AtomicU64,
+    z_far_pairs: AtomicU64,
+    z_ext_nb_transitions: AtomicU64,
+    z_day_correct_ge3: AtomicU64,
+    z_day_correct_ge4: AtomicU64,
 }
 
 /// input class of a pair (only Zoned has classes)
@@ -370,9 +454,63 @@ struct Ck<'a> {
     sec: &'a str,
     /// prefix of the case string (zone name), may be empty
     head: String,
+    /// the reference zone, for Zoned values
+    zc: Option<ZCtx<'a>>,
 }
 
 impl<'a> Ck<'a> {
+    /// Second opinion on an addition jiff performed (`jiff` = position of its
+    /// result, None if it failed): the reference model's addition. Without it
+    /// a defect shared by `until` and `checked_add` would cancel out in
+    /// `a + s == b` and in the overshoot probes.
+    fn cmp_model_add<T: Val>(&self, what: &str, a: &T, g: &Sp, jiff: Option<i128>, vsfx: &str, case: &dyn Fn() -> String) {
+        let t = self.t;
+        match a.model_add(g, self.zc.as_ref()) {
+            MAdd::Unknown => {
+                t.model_add_unknown.fetch_add(1, Relaxed);
+            }
+            MAdd::At(m, mid) => {
+                if let (Some(zc), Some(mid)) = (self.zc.as_ref(), mid) {
+                    // F7 (C03/C04): jiff reads wall-clock times near such rule transitions differently
+                    if tainted(zc.taint, floor_sec(mid)) || tainted(zc.taint, floor_sec(m)) {
+                        t.model_add_skip_taint.fetch_add(1, Relaxed);
+                        return;
+                    }
+                }
+                match jiff {
+                    Some(x) => {
+                        t.model_add_checked.fetch_add(1, Relaxed);
+                        if x != m {
+                            self.r.viol(
+                                self.sec,
+                                &format!("{}::checked_add({})/differs-from-model{}", T::NAME, what, vsfx),
+                                case(),
+                                format!("a + {} : jiff {} model {}", fmt_sp(g), conv::fmt_ns(x), conv::fmt_ns(m)),
+                            );
+                        }
+                    }
+                    None if T::CIVIL_CAL => {
+                        self.r.viol(self.sec, &format!("{}::checked_add({})/fails-but-model-in-range", T::NAME, what), case(), format!("a + {} : model {}", fmt_sp(g), conv::fmt_ns(m)));
+                    }
+                    None => {
+                        t.model_add_range_only.fetch_add(1, Relaxed);
+                    }
+                }
+            }
+            MAdd::Fail => match jiff {
+                Some(x) if T::CIVIL_CAL => {
+                    self.r.viol(self.sec, &format!("{}::checked_add({})/succeeds-but-model-out-of-range", T::NAME, what), case(), format!("a + {} : jiff {}", fmt_sp(g), conv::fmt_ns(x)));
+                }
+                Some(_) => {
+                    t.model_add_range_only.fetch_add(1, Relaxed);
+                }
+                None => {
+                    t.model_add_checked.fetch_add(1, Relaxed);
+                }
+            },
+        }
+    }
+
     fn case<T: Val>(&self, a: &T, b: &T, li: usize) -> String {
         format!("{}{} a={} b={} largest={}", self.head, T::NAME, a.show(), b.show(), UNAME[li])
     }
@@ -431,9 +569,15 @@ impl<'a> Ck<'a> {
                     (Some((ya, ma, _)), Some((yb, mb, _))) => ((yb * 12 + mb) - (ya * 12 + ma)).abs(),
                     _ => 0,
                 };
+                let month_overflow = if T::CIVIL_CAL {
+                    // exact: the whole-month count (by either admissible definition) exceeds the limit
+                    li == 1 && model::expected_calendar(a.pos(), b.pos(), 1).iter().any(|e| e.is_none())
+                } else {
+                    li == 1 && md > MONTHS_LIMIT
+                };
                 if li == 9 && (n > i64::MAX as i128 || n < -(i64::MAX as i128)) {
                     t.err_ns_overflow.fetch_add(1, Relaxed);
-                } else if li == 1 && md > MONTHS_LIMIT {
+                } else if month_overflow {
                     // md - 1 or md whole months lie between a and b
                     t.err_month_overflow.fetch_add(1, Relaxed);
                 } else {
@@ -444,6 +588,21 @@ impl<'a> Ck<'a> {
             Ok(Ok(s)) => s,
         };
         let f = fields(&s);
+        if calendar && cls.wide {
+            // how many whole civil days lie between the intermediate datetime
+            // (a + calendar part) and b: the corrections Zoned::until needed
+            let mut c = [0i64; 10];
+            c[..4].copy_from_slice(&f[..4]);
+            if let Some(mid) = model::civil_add(a.civil_pos(), &c) {
+                let dd = (b.civil_pos().div_euclid(DAY_NS) - mid.div_euclid(DAY_NS)).abs();
+                if dd >= 3 {
+                    t.z_day_correct_ge3.fetch_add(1, Relaxed);
+                }
+                if dd >= 4 {
+                    t.z_day_correct_ge4.fetch_add(1, Relaxed);
+                }
+            }
+        }
         if li == 9 && (n > i64::MAX as i128 || n < -(i64::MAX as i128)) {
             r.viol(sec, &format!("{}::until/ok-but-nanoseconds-do-not-fit{}", T::NAME, vsfx), case(), format!("until = {} (distance {} ns)", fmt_sp(&f), n));
             return k;
@@ -470,9 +629,37 @@ impl<'a> Ck<'a> {
                 if x.pos() != b.pos() {
                     r.viol(sec, &format!("{}::until/a+s!=b{}", T::NAME, vsfx), case(), format!("a + s = {}; until = {} (distance {} ns)", x.show(), fmt_sp(&f), n));
                 }
+                if sign_ok {
+                    self.cmp_model_add("until", a, &f, Some(x.pos()), vsfx, &case);
+                    k += 1;
+                }
             }
         }
         k += 1;
+        // the year/month difference against its independent definition
+        if T::CIVIL_CAL && li <= 1 {
+            let [g, tt] = model::expected_calendar(a.pos(), b.pos(), li);
+            t.expected_checked.fetch_add(1, Relaxed);
+            k += 1;
+            if g != tt {
+                t.expected_g_ne_t.fetch_add(1, Relaxed);
+            }
+            if g == Some(f) {
+                if g != tt {
+                    t.chose_greedy.fetch_add(1, Relaxed);
+                }
+            } else if tt == Some(f) {
+                t.chose_temporal.fetch_add(1, Relaxed);
+            } else {
+                let show = |e: &Option<Sp>| e.as_ref().map(fmt_sp).unwrap_or_else(|| "error(months exceed the span limit)".into());
+                r.viol(
+                    sec,
+                    &format!("{}::until/not-the-expected-span:largest={}", T::NAME, UNAME[li]),
+                    case(),
+                    format!("jiff {}; model: greedy-with-clamping {} / field-wise (Temporal) {}", fmt_sp(&f), show(&g), show(&tt)),
+                );
+            }
+        }
         // exact decomposition where all units have a fixed length
         if !calendar {
             t.exact.fetch_add(1, Relaxed);
@@ -510,8 +697,10 @@ impl<'a> Ck<'a> {
                         Err(p) => r.viol(sec, &format!("{}::checked_add(probe)/{}{}", T::NAME, panic_sig(&p), vsfx), case(), p),
                         Ok(None) => {
                             t.overshoot_by_overflow.fetch_add(1, Relaxed);
+                            self.cmp_model_add("probe", a, &g, None, vsfx, &case);
                         }
                         Ok(Some(x)) => {
+                            self.cmp_model_add("probe", a, &g, Some(x.pos()), vsfx, &case);
                             let d = (x.pos() - b.pos()).signum() as i64 * sign;
                             if d > 0 {
                                 continue;
@@ -525,10 +714,12 @@ impl<'a> Ck<'a> {
                             if let Some((y, m, dd)) = a.ymd() {
                                 let tod = a.civil_pos().rem_euclid(DAY_NS);
                                 let (y2, m2) = cal::add_months(y, m, g[0] * 12 + g[1]);
+                                let beyond = |virt: i128| x.civil_pos() != virt && (virt - b.civil_pos()).signum() as i64 * sign > 0;
+                                // (1) clamping: the wall-clock result with the day of month *not* clamped
                                 let vday = cal::days_from_civil(y2, m2, 1) as i128 + (dd - 1) as i128 + (g[2] * 7 + g[3]) as i128;
-                                let virt = vday * DAY_NS + tod;
-                                let adjusted = x.civil_pos() != virt;
-                                if adjusted && (virt - b.civil_pos()).signum() as i64 * sign > 0 {
+                                // (2) gap resolution: the (clamped) civil result *before* it was moved out of a gap
+                                let unresolved = model::civil_add(a.civil_pos(), &g);
+                                if beyond(vday * DAY_NS + tod) || unresolved.map_or(false, beyond) {
                                     if dd > cal::days_in_month(y2, m2) {
                                         t.equal_by_clamping.fetch_add(1, Relaxed);
                                     } else {
@@ -646,7 +837,7 @@ fn date_pool(thorough: bool) -> Vec<Date> {
 
 fn run_civil<T: Val>(r: &Report, t: &Tally, sec: &str, pool: &[T], largest: &[usize]) {
     r.section(sec, || {
-        let ck = Ck { r, t, sec, head: String::new() };
+        let ck = Ck { r, t, sec, head: String::new(), zc: None };
         pool.par_iter().for_each(|a| {
             let mut k = 0u64;
             let mut n = 0u64;
@@ -740,8 +931,12 @@ fn zoned_neighbourhood() -> Vec<i128> {
 }
 
 fn select_transitions(z: &rtz::Zone, thorough: bool, is_rep: bool) -> Vec<usize> {
+    // a bare POSIX zone generates two transitions in every year from -9999 on
+    let posix_only = z.n_recorded == 0 && z.version == 0;
     let year_ok = |y: i64| -> bool {
-        if thorough && is_rep {
+        if thorough && posix_only {
+            (1999..=2040).contains(&y) || y == 2100 || y >= 9990 || (-9998..=-9990).contains(&y)
+        } else if thorough && is_rep {
             y <= 2200 || y % 100 == 0 || y >= 9990
         } else if thorough {
             y <= 2040 || y == 2100 || y == 9998
@@ -816,6 +1011,142 @@ fn mk_zoned(r: &Report, t: &Tally, pair: &Pair, taint: &[(i64, i64)], x: i128) -
     }
 }
 
+/// deltas around a transition that moves the wall clock by `jump` (about a
+/// day or more): up to four civil days either side, at several times of day,
+/// among them the ones that make the wall-clock time of day of a and b equal
+/// or one second apart across the jump (offset `jump mod 24 h`): those decide
+/// whether Zoned::until starts with a day correction and how many more follow.
+fn wide_neighbourhood(jump: i128) -> Vec<i128> {
+    let mut v = vec![0i128];
+    for d in [1, NS, H, 4 * H, 12 * H] {
+        v.push(d);
+        v.push(-d);
+    }
+    let j = jump.abs() % (24 * H);
+    let mut es = vec![0, NS, -NS, H, -H, 5 * H, -5 * H];
+    for e in [j - NS, j, j + NS, -j - NS, -j, -j + NS] {
+        es.push(e);
+    }
+    for k in 1..=4i128 {
+        for &e in &es {
+            v.push(k * 24 * H + e);
+            v.push(-(k * 24 * H + e));
+        }
+    }
+    v.sort();
+    v.dedup();
+    v
+}
+
+/// every check of the property on one zone: all ordered pairs of the
+/// neighbourhood of each selected transition, pairs across consecutive
+/// transitions, pairs about a year apart, and the range limits
+fn run_zone(r: &Report, t: &Tally, sec: &str, pair: &Pair, thorough: bool, is_rep: bool) {
+    let zl: [usize; 10] = [0, 1, 2, 3, 4, 5, 6, 7, 8, 9];
+    t.z_zones.fetch_add(1, Relaxed);
+    let taint = taint_windows(&pair.model);
+    let ck = Ck { r, t, sec, head: format!("{}:{} ", pair.origin, pair.name), zc: Some(ZCtx { model: &pair.model, taint: &taint }) };
+    let ks = select_transitions(&pair.model, thorough, is_rep);
+    t.z_transitions.fetch_add(ks.len() as u64, Relaxed);
+    let one = |a: &ZVal, b: &ZVal| -> (u64, u64) {
+        if a.later {
+            t.z_a_later.fetch_add(1, Relaxed);
+        }
+        if b.later {
+            t.z_b_later.fetch_add(1, Relaxed);
+        }
+        let (p0, p1) = (a.piece.min(b.piece), a.piece.max(b.piece));
+        let wide = (p0 + 1..=p1).any(|k| (off(&pair.model, k) - off(&pair.model, k - 1)).abs() > 86_400);
+        if wide {
+            t.z_wide_pairs.fetch_add(1, Relaxed);
+        }
+        let cls = Cls { a_later: a.later, b_later: b.later, fold_x_midnight: a.fold_x_midnight || b.fold_x_midnight, near_limit: a.near_limit || b.near_limit, wide };
+        t.z_pairs.fetch_add(1, Relaxed);
+        let mut k = ck.pair_once(&a.z, &b.z, cls);
+        for &li in &zl {
+            k += ck.pair_unit(&a.z, &b.z, li, cls);
+        }
+        (k, zl.len() as u64)
+    };
+    let mk = |xs: &[i128]| -> Vec<ZVal> { xs.iter().filter_map(|&x| mk_zoned(r, t, pair, &taint, x)).collect() };
+    let book = |k: u64, n: u64| {
+        r.add_states(n);
+        r.add_transitions(k);
+        r.add_validated(k);
+    };
+    // all ordered pairs of one list
+    let run_set = |xs: &[i128]| {
+        let vals = mk(xs);
+        let (mut k, mut n) = (0u64, 0u64);
+        for a in &vals {
+            for b in &vals {
+                let (dk, dn) = one(a, b);
+                k += dk;
+                n += dn;
+            }
+        }
+        book(k, n);
+    };
+    // all pairs (a, b) and (b, a) with a from one list and b from another
+    let run_cross = |xa: &[i128], xb: &[i128]| -> u64 {
+        let (va, vb) = (mk(xa), mk(xb));
+        let (mut k, mut n, mut pairs) = (0u64, 0u64, 0u64);
+        for a in &va {
+            for b in &vb {
+                for (p, q) in [(a, b), (b, a)] {
+                    let (dk, dn) = one(p, q);
+                    k += dk;
+                    n += dn;
+                    pairs += 1;
+                }
+            }
+        }
+        book(k, n);
+        pairs
+    };
+    let nb = zoned_neighbourhood();
+    let small: Vec<i128> = vec![-25 * H, -H, -NS, 0, 1_800 * NS, H, 25 * H];
+    let far: Vec<i128> = [365i128, 366, 365 + 31, 4 * 365 + 1].iter().flat_map(|&d| [d * DAY_NS, -d * DAY_NS, d * DAY_NS + 13 * H, -d * DAY_NS - 13 * H]).collect();
+    // rank of each selected transition among the zone's wide ones
+    let mut wide_rank = vec![0usize; ks.len()];
+    let mut nw = 0;
+    for (i, &k) in ks.iter().enumerate() {
+        wide_rank[i] = nw;
+        if (off(&pair.model, k) - off(&pair.model, k - 1)).abs() >= 20 * 3600 {
+            nw += 1;
+        }
+    }
+    (0..ks.len()).into_par_iter().for_each(|i| {
+        let k = ks[i];
+        let tr = pair.model.pieces[k].start as i128 * NS;
+        let xs: Vec<i128> = nb.iter().map(|d| tr + d).collect();
+        run_set(&xs);
+        // a transition moving the wall clock by 20 h or more: whole civil days vanish or repeat
+        let jump = off(&pair.model, k) - off(&pair.model, k - 1);
+        // (rule-generated transitions repeat every year: the first few of a zone suffice)
+        if jump.abs() >= 20 * 3600 && wide_rank[i] < if thorough { 24 } else { 6 } {
+            t.z_ext_nb_transitions.fetch_add(1, Relaxed);
+            let xs: Vec<i128> = wide_neighbourhood(jump as i128 * NS).iter().map(|d| tr + d).collect();
+            run_set(&xs);
+        }
+        let sa: Vec<i128> = small.iter().map(|d| tr + d).collect();
+        // pairs across this transition and the next selected one (months apart in most zones)
+        if i + 1 < ks.len() {
+            let tn = pair.model.pieces[ks[i + 1]].start as i128 * NS;
+            if tn - tr <= 400 * DAY_NS && tn - tr > 25 * H {
+                let sb: Vec<i128> = small.iter().map(|d| tn + d).collect();
+                t.z_cross_pairs.fetch_add(run_cross(&sa, &sb), Relaxed);
+            }
+        }
+        // pairs about one year / four years apart (years and months populated)
+        let fb: Vec<i128> = far.iter().map(|d| tr + d).collect();
+        t.z_far_pairs.fetch_add(run_cross(&sa, &fb), Relaxed);
+    });
+    // the zone's range limits
+    let (ts_min, ts_max) = (conv::ts_min_ns(), conv::ts_max_ns());
+    run_set(&[ts_min, ts_min + 1, ts_min + DAY_NS, 0, ts_max - DAY_NS, ts_max - 1, ts_max]);
+}
+
 fn main() {
     let r = Report::from_args("C07");
     let thorough = r.thorough();
@@ -853,7 +1184,6 @@ fn main() {
     run_civil(&r, &t, "timestamp", &tss, &[4, 5, 6, 7, 8, 9]);
 
     // ---------------- Zoned ----------------
-    let zl: Vec<usize> = (0..10).collect();
     r.section("zoned", || {
         let mut srcs: Vec<ZoneSrc> = zones::rep();
         let n_rep = srcs.len();
@@ -866,8 +1196,9 @@ fn main() {
             }
             srcs.extend(zones::synth("slim"));
             srcs.extend(zones::synth("fat"));
+        } else {
+            srcs.extend(zones::synth("slim"));
         }
-        let nb = zoned_neighbourhood();
         srcs.par_iter().enumerate().for_each(|(zi, src)| {
             let pair = match zones::load_pair(src) {
                 Ok(p) => p,
@@ -876,47 +1207,36 @@ fn main() {
                     return;
                 }
             };
-            t.z_zones.fetch_add(1, Relaxed);
-            let taint = taint_windows(&pair.model);
-            let ck = Ck { r: &r, t: &t, sec: "zoned", head: format!("{}:{} ", pair.origin, pair.name) };
-            let ks = select_transitions(&pair.model, thorough, zi < n_rep);
-            t.z_transitions.fetch_add(ks.len() as u64, Relaxed);
-            let run_set = |xs: &[i128]| {
-                let vals: Vec<ZVal> = xs.iter().filter_map(|&x| mk_zoned(&r, &t, &pair, &taint, x)).collect();
-                let (mut k, mut n) = (0u64, 0u64);
-                for a in &vals {
-                    for b in &vals {
-                        if a.later {
-                            t.z_a_later.fetch_add(1, Relaxed);
-                        }
-                        if b.later {
-                            t.z_b_later.fetch_add(1, Relaxed);
-                        }
-                        let (p0, p1) = (a.piece.min(b.piece), a.piece.max(b.piece));
-                        let wide = (p0 + 1..=p1).any(|k| (off(&pair.model, k) - off(&pair.model, k - 1)).abs() > 86_400);
-                        let cls = Cls { a_later: a.later, b_later: b.later, fold_x_midnight: a.fold_x_midnight || b.fold_x_midnight, near_limit: a.near_limit || b.near_limit, wide };
-                        t.z_pairs.fetch_add(1, Relaxed);
-                        k += ck.pair_once(&a.z, &b.z, cls);
-                        for &li in &zl {
-                            k += ck.pair_unit(&a.z, &b.z, li, cls);
-                            n += 1;
-                        }
-                    }
-                }
-                r.add_states(n);
-                r.add_transitions(k);
-                r.add_validated(k);
-            };
-            ks.par_iter().for_each(|&k| {
-                let tr = pair.model.pieces[k].start as i128 * NS;
-                let xs: Vec<i128> = nb.iter().map(|d| tr + d).collect();
-                run_set(&xs);
-            });
-            // the zone's range limits
-            let (ts_min, ts_max) = (conv::ts_min_ns(), conv::ts_max_ns());
-            run_set(&[ts_min, ts_min + 1, ts_min + DAY_NS, 0, ts_max - DAY_NS, ts_max - 1, ts_max]);
+            run_zone(&r, &t, "zoned", &pair, thorough, zi < n_rep);
         });
     });
+
+    // ---------------- Zoned: zones at the edge of well-formedness ----------------
+    // (hand-built TZif with +-25:59:59 offsets and transitions close together;
+    // POSIX zones with ~50 h jumps): is the day-correction search of
+    // Zoned::until bounded generously enough?
+    r.section("zoned_extreme", || {
+        let hz = hand::zones();
+        hz.par_iter().for_each(|src| match zones::load_pair(src) {
+            Ok(pair) => {
+                t.z_hand_zones.fetch_add(1, Relaxed);
+                run_zone(&r, &t, "zoned_extreme", &pair, thorough, true);
+            }
+            Err(e) => r.viol("zoned_extreme", "TimeZone::tzif/hand-built-zone-refused", format!("hand:{}", src.name), e),
+        });
+        hand::posix().par_iter().for_each(|s| match zones::load_posix_pair(s) {
+            Ok(pair) => {
+                t.z_posix_zones.fetch_add(1, Relaxed);
+                run_zone(&r, &t, "zoned_extreme", &pair, thorough, false);
+            }
+            Err(_) => {
+                t.z_not_loaded.fetch_add(1, Relaxed);
+            }
+        });
+    });
+
+    // ---------------- documented errors, argument forms, different zones ----------------
+    forms::run(&r, thorough, &dates, &times, &tss);
 
     let g = |a: &AtomicU64| a.load(Relaxed);
     r.count("cases(a,b,largest)", g(&t.cases));
@@ -938,6 +1258,22 @@ fn main() {
     r.count("zoned_cases_in_class_a-or-b-in-fold-later-side,largest>=day", g(&t.z_known_class_cases));
     r.count("zoned_skipped_offset_disagrees_with_model(C03)", g(&t.z_skip_offset));
     r.count("zoned_skipped_near_rule_transition_outside_its_year(F7)", g(&t.z_skip_taint));
+    r.count("zoned_hand_built_zones", g(&t.z_hand_zones));
+    r.count("zoned_posix_zones", g(&t.z_posix_zones));
+    r.count("zoned_transitions_with_wide_neighbourhood(|jump|>=20h)", g(&t.z_ext_nb_transitions));
+    r.count("zoned_pairs_across_a_jump_of_more_than_24h", g(&t.z_wide_pairs));
+    r.count("zoned_cases_intermediate_3_or_more_civil_days_from_b", g(&t.z_day_correct_ge3));
+    r.count("zoned_cases_intermediate_4_or_more_civil_days_from_b", g(&t.z_day_correct_ge4));
+    r.count("zoned_pairs_across_consecutive_transitions", g(&t.z_cross_pairs));
+    r.count("zoned_pairs_about_1y_or_4y_apart", g(&t.z_far_pairs));
+    r.count("model_addition_compared", g(&t.model_add_checked));
+    r.count("model_addition_no_opinion(overlapping transitions)", g(&t.model_add_unknown));
+    r.count("model_addition_skipped_near_rule_transition_outside_its_year(F7)", g(&t.model_add_skip_taint));
+    r.count("model_addition_zoned_range_disagreement_not_judged", g(&t.model_add_range_only));
+    r.count("civil_year_month_span_compared_with_model", g(&t.expected_checked));
+    r.count("civil_year_month_span_greedy_and_fieldwise_definitions_differ", g(&t.expected_g_ne_t));
+    r.count("civil_year_month_span_jiff_follows_greedy_where_they_differ", g(&t.chose_greedy));
+    r.count("civil_year_month_span_jiff_follows_fieldwise", g(&t.chose_temporal));
     r.outcome("b==a", g(&t.zero));
     r.outcome("b>a", g(&t.pos));
     r.outcome("b<a", g(&t.neg));
@@ -949,6 +1285,11 @@ fn main() {
         r.require(g(&t.err_ns_overflow) > 0, "the documented nanosecond overflow error occurs");
         r.require(g(&t.z_a_later) > 0 && g(&t.hours_ge_24) > 0, "fold pairs and 25-hour days occur");
         r.require(g(&t.equal_by_clamping) > 0 && g(&t.overshoot_tests) > 1000, "overshoot tests ran, including month-end clamping");
+        r.require(g(&t.model_add_checked) > 100_000, "additions were compared with the reference model");
+        r.require(g(&t.expected_checked) > 10_000 && g(&t.expected_g_ne_t) > 0, "year/month spans were compared with the model, including clamped month ends");
+        r.require(g(&t.z_hand_zones) >= 20 && g(&t.z_posix_zones) >= 3, "hand-built extreme zones and POSIX zones were loaded");
+        r.require(g(&t.z_wide_pairs) > 1000 && g(&t.z_day_correct_ge4) > 0, "pairs across jumps of more than 24 h, some needing all four day corrections");
+        r.require(g(&t.z_cross_pairs) > 0 && g(&t.z_far_pairs) > 0, "pairs across consecutive transitions and about a year apart");
     }
     r.sample(json!({"case": "Date a=2024-01-31 b=2024-03-01 largest=month", "expect": "span{mo=1,d=1}: a+1mo = 2024-02-29, +1d = b; a+2mo = 2024-03-31 overshoots; a+1mo+2d = 2024-03-02 overshoots"}));
     r.sample(json!({"case": "Zoned America/New_York a=2024-11-02T01:30-04:00 b=2024-11-03T01:30-05:00 largest=day", "expect": "span{d=1,h=1}: the civil day is 25 hours long"}));
